@@ -60,8 +60,10 @@ CLAIMS = {
                  "media_roundtrip_parsed - those conditions DERIVED for every playlist the parser returns (Proofs/ParsedRT, ParsedWF, ParsedMedia: raw lines are "
                  "trimmed single lines, unquote never yields a quote or line end, integers < 2^64, IV < 2^128, 1-9 one-byte versions, URI lines and unknown tags "
                  "classify the same way again; invariant StGood through the parser's loop and build): for every string s, parse s = ok p, NoK2 p and MediaOpen p "
-                 "imply parse (to_string p) = ok p, where MediaOpen = Rust's decimal formatting of each EXTINF duration reads back (FL2, trusted) and the "
-                 "EXT-X-START / EXT-X-DATERANGE lines read back (not proved at line level). k2_counterexample - the statement "
+                 "imply parse (to_string p) = ok p, where MediaOpen consists of facts about Rust's float formatting only (each EXTINF / DATERANGE duration, "
+                 "the EXT-X-START offset and float-valued client attributes read back: FL2 / FL1, validated by sweeps, evaluated by the kernel on the concrete "
+                 "example) plus 'SCTE35 values are plain tokens' (true of valid text). LineRT is proved for EVERY line kind the writer emits (Proofs/LineRT*, "
+                 "TagRT, DateRangeRT). example_media: a concrete playlist meets all hypotheses and round-trips at string level. k2_counterexample - the statement "
                  "without NoK2 is false (recorded finding K2); k3_repaired - the former finding K3 now round-trips; control_roundtrip - non-vacuity. Tie + "
                  "oracle: EVERY key/map/segment event sequence over an 11-letter alphabet up to the length bound, long random histories with IV / "
                  "KEYFORMATVERSIONS, generated playlists with all 17 tags and the fixtures, through try_from -> to_string -> try_from -> to_string on library and "
@@ -70,16 +72,20 @@ CLAIMS = {
         "note": "Known finding K2 (key between MAP and URI) is reported as KNOWN-FINDING; K3 (reset followed by fewer key formats) and K4 (default KEYFORMATVERSIONS) were found by this check and repaired by fix: commits.",
     },
     "C04": {
-        "technique": "Lean 4 proof (writer's typed lines fed to the parser's state machine give back every parser-producible value; text level through the line-splitter lemmas under per-line re-classification) + to_string/try_from round trip run on library and model",
+        "technique": "Lean 4 proof (string level: for every text the master parser accepts, to_string then try_from gives the value back, modulo two stated facts about float formatting; typed-line level unconditional) + to_string/try_from round trip run on library and model",
         "text": ("Proof (Lean 4, Props/C04.lean): master_write_parse - for EVERY master playlist value the parser can produce, the parser's state machine run on the "
                  "lines the writer emits returns exactly that value (five lists in source order, both flags, start offset, unknown tags); it needs only that the value "
                  "passed the builder's validation, which parsed_valid derives. master_roundtrip - the same through to_string() and try_from() on text, using "
                  "lineItems_renderLines (Proofs/Render.lean: a written line list reads back as itself, STREAM-INF + URI pairing included) and the line-splitter lemmas, "
                  "under the per-line hypothesis LineRT (each written line's text classifies back to that line). master_fixed_point - the second serialisation is "
-                 "byte-identical. PARTIAL: LineRT is discharged in Lean only for the line kinds listed in DESIGN.md section 7 (C04); for the others it is a named "
-                 "hypothesis validated by the run (tag-level R:= checks). Tie + oracle: fixtures, generated and dense-combination master playlists through try_from -> to_string -> "
+                 "byte-identical. master_roundtrip_wf - LineRT proved for EVERY line kind the master writer emits (Proofs/MediaTagRT, VariantRT, TagRT, LineRTAttr, "
+                 "MasterWrittenRT.master_written_lines_rt) from conditions on the value (MasterWF). master_roundtrip_parsed - MasterWF DERIVED for every playlist "
+                 "the parser returns (Proofs/ParsedMaster): for every string s, parseMaster s = ok p and MasterOpen p imply parseMaster (to_string p) = ok p, where "
+                 "MasterOpen is two facts about Rust's float formatting (the EXT-X-START offset reads back: FL1; the three-decimal FRAME-RATE reads back: FL3 - "
+                 "validated by sweeps, evaluated by the kernel on the concrete example). example_master: a concrete playlist with every kind of tag meets all "
+                 "hypotheses and round-trips at string level. Tie + oracle: fixtures, generated and dense-combination master playlists through try_from -> to_string -> "
                  "try_from -> to_string on library and model (status, observation, association lists, R and F must agree); on the library R must be '=' and F '1'."),
-        "design_ref": "DESIGN.md §7 C04",
+        "design_ref": "DESIGN.md §0.4, §7 C04",
         "note": "K4 (default KEYFORMATVERSIONS dropped by the writer) was repaired by a fix: commit.",
     },
     "C12": {
@@ -152,11 +158,14 @@ CLAIMS = {
         "text": ("Proof (Lean 4) on the model: every variant of EncryptionMethod, HdcpLevel, MediaType, PlaylistType, ProtocolVersion and all 67 InStreamId "
                  "values round-trip (decide over the tables regenerated from the source); channels_rt, resolution_rt, byteRange_rt (all values below 2^64), "
                  "codecs_rt, keyFormat_rt, closedCaptions_rt, keyFormatVersions_rt (1-9 items), value_hex_rt with the hex codec lemmas, float_accepts_finite "
-                 "(the wrappers accept exactly the finite / finite non-negative literals). PARTIAL: the IEEE-754 facts are named hypotheses FL1/FL2, and "
-                 "InitializationVector, Value::String/Float and the attribute-list tags are not yet proved in Lean; for all of them the check relies on the "
-                 "correspondence run (model's text and re-parse result must equal the library's) and on the implementation oracle parse(to_string(v)) = v, "
-                 "incl. a sweep over binary32 bit patterns run inside the harness (quick 2^25, thorough all 2^32 per wrapper)."),
-        "design_ref": "DESIGN.md §7 C18",
+                 "(the wrappers accept exactly the finite / finite non-negative literals), iv_rt (128-bit IV). Props/C18Tags.lean (second property file): the "
+                 "composite tags - decryptionKey, sessionData, media (EXT-X-MEDIA incl. the builder's validation on re-reading), start, dateRange (client "
+                 "attributes as a sorted map; string and hex values), iframeStreamInf, streamInf (two-line form), and line_media_playlist / line_master_playlist "
+                 "(every line either writer emits classifies back to the same typed line). PARTIAL only in this: the IEEE-754 facts are named hypotheses "
+                 "(FloatRT = FL1, the seconds pairs = FL2, FrameRateRT = FL3); they are validated by the correspondence run, by the implementation oracle "
+                 "parse(to_string(v)) = v and by a sweep over binary32 bit patterns inside the harness (quick 2^25, thorough all 2^32 per wrapper), and "
+                 "evaluated by the kernel on the concrete examples of C03 / C04."),
+        "design_ref": "DESIGN.md §0.4, §7 C18",
         "note": "K4 (KEYFORMATVERSIONS=\"1\" dropped by the writer) was repaired by a fix: commit.",
     },
     "C17": {
